@@ -289,7 +289,6 @@ func c11(e *Env) {
 	c.Floor("sentinel-distinct", 11)
 }
 
-
 // sentinelFacts: the cvsserr sentinels are distinct errors.New values, initialised once and never reassigned.
 // Every rule that treats errs.Wrap(<sentinel>) as a non-nil error matching exactly that sentinel depends on it,
 // so it is part of every property whose rules do (not only of C11).
